@@ -593,3 +593,132 @@ func ruleR17_4(w *World, r *Report) {
 		r.Unk("R17.4", "parser levels", "-", fmt.Sprintf("%d parser method(s) with a consume-then-parse sequence found", n))
 	}
 }
+
+// ---------- R3.6: slices sorted in parallel have the same length ----------
+
+// A sorter type with a literal slice and a weight slice (Less / Swap index both with the same position) is only safe
+// when both slices have the same length. Where both are built locally the lengths must be the length of the same
+// thing; `make([]int, len(s.minWeights))` next to `make([]Lit, len(s.minLits))` is equal only when weights are
+// present, although SetCostFunc documents that weights may be nil.
+func ruleR3_6(w *World, r *Report) {
+	r.Rule("R3.6", "where a sorter over parallel literal / weight slices is built from slices made in the same function, both are made with the length of the same list (or the site is dominated by a test that the shorter-when-nil list is not nil)", 1)
+	lenOrigin := func(fn *ssa.Function, v ssa.Value, at ssa.Instruction) (string, bool) {
+		for i := 0; i < 4; i++ {
+			switch x := v.(type) {
+			case *ssa.MakeSlice:
+				if c, ok := x.Len.(*ssa.Call); ok {
+					if b, isB := c.Call.Value.(*ssa.Builtin); isB && b.Name() == "len" {
+						if o, f, _, okF := loadedFieldOf(c.Call.Args[0]); okF {
+							return o + "." + f, true
+						}
+					}
+				}
+				return "", false
+			case *ssa.UnOp:
+				if x.Op != token.MUL {
+					return "", false
+				}
+				o, f, _, okF := fieldOf(x.X)
+				if !okF {
+					return "", false
+				}
+				// the last store to that field in this function that dominates the use
+				var last *ssa.Store
+				for _, st := range storesToField(fn, o, f) {
+					if instrDominates(st, at) && (last == nil || instrDominates(last, st)) {
+						last = st
+					}
+				}
+				if last == nil {
+					return "", false
+				}
+				v = last.Val
+				continue
+			}
+			break
+		}
+		return "", false
+	}
+	n := 0
+	for _, fn := range w.Fns {
+		if w.PkgName(fn) != "solver" {
+			continue
+		}
+		allInstrs(fn, func(ins ssa.Instruction) {
+			al, ok := ins.(*ssa.Alloc)
+			if !ok {
+				return
+			}
+			st, ok := derefNamedStruct(al.Type())
+			if !ok || st.NumFields() != 2 {
+				return
+			}
+			li, wi := -1, -1
+			for i := 0; i < 2; i++ {
+				switch typeShort(st.Field(i).Type()) {
+				case "[]solver.Lit":
+					li = i
+				case "[]int":
+					wi = i
+				}
+			}
+			if li < 0 || wi < 0 {
+				return
+			}
+			var lv, wv ssa.Value
+			var at ssa.Instruction
+			for _, ref := range *al.Referrers() {
+				fa, isFA := ref.(*ssa.FieldAddr)
+				if !isFA {
+					continue
+				}
+				for _, r2 := range *fa.Referrers() {
+					if s2, isS := r2.(*ssa.Store); isS && s2.Addr == ssa.Value(fa) {
+						if fa.Field == li {
+							lv = s2.Val
+						} else {
+							wv = s2.Val
+						}
+						at = s2
+					}
+				}
+			}
+			if lv == nil || wv == nil {
+				return
+			}
+			lo, ok1 := lenOrigin(fn, lv, at)
+			wo, ok2 := lenOrigin(fn, wv, at)
+			if !ok1 || !ok2 {
+				return // lengths come from the caller: the constructor's own contract (R2.1)
+			}
+			n++
+			key := fmt.Sprintf("%s parallel sorter #%d", w.FuncName(fn), n)
+			if lo == wo {
+				r.OK("R3.6", key, w.InstrPos(at), "both slices have the length of "+lo)
+				return
+			}
+			// different lists: equal only when the second is known non-nil here
+			guarded := false
+			for _, ec := range dominatingConds(at.Block()) {
+				if bo, isB := ec.Cond.(*ssa.BinOp); isB && isNilConst(bo.Y) && (bo.Op == token.NEQ) == ec.True && (bo.Op == token.NEQ || bo.Op == token.EQL) {
+					if o, f, _, okF := loadedFieldOf(bo.X); okF && o+"."+f == wo {
+						guarded = true
+					}
+				}
+			}
+			r.Check(guarded, "R3.6", key, w.InstrPos(at), "the weight list is known non-nil here",
+				fmt.Sprintf("the literal slice has the length of %s and the weight slice the length of %s: when the weight list is nil (documented: all weights are 1) the sorter indexes an empty slice and panics", lo, wo))
+		})
+	}
+	if n == 0 {
+		r.Unk("R3.6", "parallel sorters", "-", "no sorter over a literal slice and a weight slice is built from locally made slices")
+	}
+}
+
+func derefNamedStruct(t types.Type) (*types.Struct, bool) {
+	if p, ok := t.Underlying().(*types.Pointer); ok {
+		t = p.Elem()
+	}
+	st, ok := t.Underlying().(*types.Struct)
+	return st, ok
+}
